@@ -269,6 +269,8 @@ struct Hist {
     MIP_Problem f(S.d.dim);
     build_fresh(f, S.d, r.below(3));
     observe_one("fresh", s, f, S.d.dim, kind);
+    // optimizing_point() / optimal_value() run solve() but do not show the status: show it now
+    if (kind >= 3) observe(s, 0);
   }
   void observe_some(int s) {
     unsigned k = 1 + r.below(2);
